@@ -40,9 +40,11 @@ Val(T, pool) ==
     [] T.k = "union" -> UNION {Val(T.a[i], pool) : i \in 1..Len(T.a)}
     [] T.k = "literal" -> {Atom(T.v[i]) : i \in 1..Len(T.v)}
     [] T.k \in {"newtype", "annotated"} -> Val(T.a[1], pool)
-ValOf(T) == {v \in Val(T, Tokens) : v.c \in {"dict", "defaultdict"} => Len(v.ks) = Len(v.vs)}
+ValOf(T) == IF T.k = "IObytes" THEN {} ELSE {v \in Val(T, Tokens) : v.c \in {"dict", "defaultdict"} => Len(v.ks) = Len(v.vs)}
 
 \* values that are not of the exact class of any case: dumped through the nearest ancestor (no round trip is promised)
+\* a stream dumped as IO[bytes] comes back as a BytesIO: the outer form is checked, no round trip is promised
+StreamVals(T) == IF T.k = "IObytes" THEN ScalarVals("IObytes", Tokens) ELSE {}
 SubclassVals(T) == IF T.k = "union" /\ \E i \in 1..Len(T.a) : T.a[i].k = "int" /\ ~\E j \in 1..Len(T.a) : T.a[j].k = "bool"
                    THEN {Atom("bT")} ELSE {}
 
@@ -63,7 +65,7 @@ PickType == /\ st = "root"
             /\ st' = "type" /\ v' = v /\ sub' = sub
 PickValue == /\ st = "type"
              /\ \/ \E x \in ValOf(T) : v' = x /\ sub' = FALSE
-                \/ \E x \in SubclassVals(T) \cup AltKindVals(T) : v' = x /\ sub' = TRUE
+                \/ \E x \in SubclassVals(T) \cup AltKindVals(T) \cup StreamVals(T) : v' = x /\ sub' = TRUE
              /\ st' = "case" /\ T' = T
 Next == PickType \/ PickValue
 
